@@ -312,7 +312,10 @@ def main(ident, tier, replay=None):
     budget = int(os.environ.get('VERIF_CASES', mod.BUDGET[tier]))
     tcap = float(os.environ.get('VERIF_TIME', mod.TIME[tier]))
     deadline = t0 + tcap
-    nshards = NPROC * int(os.environ.get('VERIF_SHARDS_PER_PROC', '4'))     # more shards than workers: stragglers even out
+    # more shards than workers so that stragglers even out, but at least ~25 cases per shard (the first example of
+    # every Hypothesis run is the minimal one)
+    k = max(1, min(int(os.environ.get('VERIF_SHARDS_PER_PROC', '4')), budget // (NPROC * 25)))
+    nshards = NPROC * k
 
     totals = {'n': 0, 'nontrivial': set(), 'classes': {}, 'samples': [], 'failures': {}, 'known_seen': {},
               'inconclusive': 0, 'skipped_time': 0}
